@@ -9,7 +9,7 @@ import codec as C
 import drive
 import p_recv as PR
 
-LEAN_TARGETS = ["Verif.Props.C02"]
+LEAN_TARGETS = ["Verif.Props.C02", "Verif.Props.C02More"]
 LEVEL = "proof"
 ASSUMPTIONS = [
     "the last clause (returned messages are self-contained values) concerns object aliasing, which no value-level model expresses: it is "
